@@ -423,7 +423,7 @@ def playback(crate, harness, timeout=600, trace_cfg=True):
         for m in re.finditer(r"^TRACE (\w+)=(.*)$", out2, re.M):
             res["trace"][m.group(1)] = m.group(2).strip()
         pm = re.search(r"panicked at (.*?)(?:\nnote:|\nstack backtrace|\n\n|\Z)", out2, re.S)
-        if pm and "test result: FAILED" in out2:
+        if pm and "test result: FAILED" in out2 and "concrete_playback.rs" not in pm.group(1):
             res["reproduced"] = True
             res["panic"] = " ".join(pm.group(1).split())[:300]
             m2 = re.search(r"Check for `\w+`: \"?(.*?)\"?\n", test)
